@@ -145,8 +145,79 @@ fn disclosure(bits: &[usize], seed: u64, sh: &Shared) -> Result<CaseInfo, Fail> 
     })
 }
 
+/// The curious OT-extension sender: with the base-OT seeds it legitimately holds (probe) it tries to
+/// cancel the PRG streams in the rows of the receiver's extension matrix.  If `row ^ G(a) ^ G(b)`
+/// comes out the same for two different rows (any seeds a, b it knows), that value is the receiver's
+/// choice vector - i.e. the receiver's own mask shares.
+fn curious_ot_sender(n: usize, seed: u64, sh: &Shared) -> Result<CaseInfo, Fail> {
+    use polytune::verif as pv;
+    let cfg = ExecCfg { record_probes: true, ..Default::default() };
+    let mut m = Mix(seed);
+    let bits = 3usize;
+    let inputs: Vec<Vec<bool>> = (0..n).map(|_| (0..bits).map(|_| m.next() & 1 == 1).collect()).collect();
+    let case = MpcCase::simple(wide_circ(n, bits), inputs, (seed % n as u64) as usize, (0..n).collect());
+    let run = run_mpc(&case, Adversary::default(), &cfg);
+    check_honest_result(&case, &run.res).map_err(|e| Fail::new("C06|wrong-result", e))?;
+    note_deltas(&run.res, sh)?;
+    let mut tried = 0usize;
+    let mut occ: std::collections::HashMap<(usize, usize), usize> = Default::default();
+    for pr in run.res.probes.iter().filter(|p| p.site == "alsz_sender_seeds") {
+        let (sender, receiver) = (pr.party, pr.data[0] as usize);
+        let k = {
+            let e = occ.entry((sender, receiver)).or_insert(0);
+            *e += 1;
+            *e - 1
+        };
+        let Some(msg) = run.res.msgs.iter().find(|x| x.from == receiver && x.to == sender && x.label == "ALSZ_OT_setup" && x.label_occ == k) else { continue };
+        let Some(Val::Seq(rows)) = decode(msg) else { continue };
+        let rows: Vec<&Vec<u8>> = rows.iter().filter_map(|r| if let Val::Bytes(b) = r { Some(b) } else { None }).collect();
+        let Some(row_len) = rows.first().map(|r| r.len()) else { continue };
+        if row_len == 0 || rows.iter().any(|r| r.len() != row_len) {
+            continue;
+        }
+        let w = row_len.min(16);
+        let seeds: Vec<[u8; 16]> = pr.data[1..].chunks_exact(2).map(|c| {
+            let mut b = [0u8; 16];
+            b[..8].copy_from_slice(&c[0].to_le_bytes());
+            b[8..].copy_from_slice(&c[1].to_le_bytes());
+            b
+        }).collect();
+        let streams: Vec<Vec<u8>> = seeds.iter().map(|s| pv::aes_rng_fill(*s, w)).collect();
+        let mut seen: std::collections::HashMap<Vec<u8>, usize> = Default::default();
+        for (j, row) in rows.iter().enumerate() {
+            for a in 0..streams.len() {
+                for b in a + 1..streams.len() {
+                    let cand: Vec<u8> = (0..w).map(|i| row[i] ^ streams[a][i] ^ streams[b][i]).collect();
+                    tried += 1;
+                    match seen.get(&cand) {
+                        Some(j0) if *j0 != j => {
+                            return Err(Fail::new(
+                                "C06|ot-choice-bits-recoverable",
+                                format!("n={n}: party {sender}, as sender of OT extension #{k} towards party {receiver}, cancels the PRG streams of rows {j0} and {j} of the receiver's extension matrix with base-OT seeds it holds (seeds {a} and {b} for row {j}) and obtains the same value twice: the receiver's choice bits, i.e. its own mask shares, are disclosed"),
+                            ));
+                        }
+                        Some(_) => {}
+                        None => {
+                            seen.insert(cand, j);
+                        }
+                    }
+                }
+            }
+        }
+    }
+    Ok(CaseInfo {
+        nontrivial: (tried > 0).then(|| hash_of(&(n, seed, 1234u16))),
+        classes: vec![if tried > 0 { format!("curious-ot-sender:n={n}") } else { "curious-ot-sender:no-probe".into() }],
+        sample: Some(json!({"curious_ot_sender": {"n": n, "candidates_tried": tried}})),
+        undecided: tried == 0,
+        ..Default::default()
+    })
+}
+
 #[derive(Clone, Debug, Serialize, Deserialize)]
 pub enum Case {
+    /// decode attempt of a curious OT-extension sender on one execution
+    CuriousOtSender { n: usize, seed: u64 },
     /// own-share disclosure test over 64 executions of one circuit shape
     Disclosure { bits: Vec<usize>, seed: u64 },
     /// linear leakage test on one execution
@@ -217,6 +288,7 @@ fn test_case(c: &Case, sh: &Shared) -> Result<CaseInfo, Fail> {
     let cfg = ExecCfg { record_probes: true, ..Default::default() };
     match c {
         Case::Disclosure { bits, seed } => disclosure(bits, *seed, sh),
+        Case::CuriousOtSender { n, seed } => curious_ot_sender(*n, *seed, sh),
         Case::Balance { n, value, runs, .. } => {
             let case = MpcCase::simple(wide_circ(*n, BALANCE_BITS), vec![vec![*value; BALANCE_BITS]; *n], 0, vec![0]);
             for _ in 0..*runs {
@@ -302,7 +374,7 @@ fn note_deltas(res: &RunResult<Vec<bool>>, sh: &Shared) -> Result<(), Fail> {
 pub fn run(tier: Tier, seed: u64) -> i32 {
     let ctx = Ctx::new("C06", tier, seed, "exploration");
     let big_n = tier.pick(400usize, 4000);
-    ctx.set_rule(&format!("repeated executions (the engine's own coins are the random variable): (i) balance - n in {{2,3}}, 136 input bits per party (wire indices 0..407, i.e. every position of the 64/128-bit words in which the preprocessing bit strings are handled), every input fixed to 0 for N={big_n} runs and to 1 for N runs; from the transcript only, b = masked_input[w] XOR (shares the others sent to the owner) = x_w XOR r_P[w]; per (n, party, wire, value) cell the number of ones must lie within 6.5 sigma of N/2 (two-sided tail 8e-11 per cell, 1360 cells => < 1.1e-7 per run); (ii) canary - 128 random input bits per party: neither they nor their complement occur in any message the party sends, as packed bit stream (both bit orders, both wire orders, every bit offset) or as 0/1 bytes at any offset and stride 1..40; (iii) no own mask share of a non-output register in the share messages of the output phase; (iii') own-share disclosure over 64 executions with random inputs per circuit shape (input vectors of 1..2100 bits, also crossing the 1000-share preprocessing batch): no bit position of any message the party sends equals or complements its own mask share of an input wire in all 64 executions (chance 2^-63 per position and wire); (iv) linear leakage test: the KOS check value, aBit test bits and opened aShare bits of a party (with the public coins recomputed from the openings on the wire) must not determine its private bit string under the hypothesis of constant blinding bits; (v) uniqueness of every global key (probe) and every 128-bit mask vector over all parties and executions. non-trivial = a balance cell with N complete runs / a canary execution; evaluations counts engine executions"));
+    ctx.set_rule(&format!("repeated executions (the engine's own coins are the random variable): (i) balance - n in {{2,3}}, 136 input bits per party (wire indices 0..407, i.e. every position of the 64/128-bit words in which the preprocessing bit strings are handled), every input fixed to 0 for N={big_n} runs and to 1 for N runs; from the transcript only, b = masked_input[w] XOR (shares the others sent to the owner) = x_w XOR r_P[w]; per (n, party, wire, value) cell the number of ones must lie within 6.5 sigma of N/2 (two-sided tail 8e-11 per cell, 1360 cells => < 1.1e-7 per run); (ii) canary - 128 random input bits per party: neither they nor their complement occur in any message the party sends, as packed bit stream (both bit orders, both wire orders, every bit offset) or as 0/1 bytes at any offset and stride 1..40; (iii) no own mask share of a non-output register in the share messages of the output phase; (iii') own-share disclosure over 64 executions with random inputs per circuit shape (input vectors of 1..2100 bits, also crossing the 1000-share preprocessing batch): no bit position of any message the party sends equals or complements its own mask share of an input wire in all 64 executions (chance 2^-63 per position and wire); (iii'') curious OT-extension sender: with the base-OT seeds it holds (probe) it XORs every pair of expanded seeds onto every row of the receiver's extension matrix; the same value from two different rows would be the receiver's choice vector (its mask shares); (iv) linear leakage test: the KOS check value, aBit test bits and opened aShare bits of a party (with the public coins recomputed from the openings on the wire) must not determine its private bit string under the hypothesis of constant blinding bits; (v) uniqueness of every global key (probe) and every 128-bit mask vector over all parties and executions. non-trivial = a balance cell with N complete runs / a canary execution; evaluations counts engine executions"));
     ctx.assume("statistical: detects a constant or grossly biased mask, reuse and plain leakage; not cryptographic weakness of the generator");
     let sh = Shared { deltas: Default::default(), delta_count: Default::default(), masks: Default::default(), mask_count: Default::default(), counts: Default::default() };
     let chunk = 25;
@@ -321,6 +393,9 @@ pub fn run(tier: Tier, seed: u64) -> i32 {
     let shapes: Vec<Vec<usize>> = tier.pick(vec![vec![1100, 8], vec![600, 600], vec![136, 136, 136], vec![3, 2]], vec![vec![1100, 8], vec![8, 1100], vec![600, 600], vec![2100, 30], vec![136, 136, 136], vec![700, 400, 300], vec![3, 2], vec![1, 1, 1, 1]]);
     for (k, b) in shapes.into_iter().enumerate() {
         cases.insert(k * 3, Case::Disclosure { bits: b, seed: seed.wrapping_mul(31).wrapping_add(k as u64) });
+    }
+    for k in 0..tier.pick(2u64, 12) {
+        cases.push(Case::CuriousOtSender { n: 2 + (k % 2) as usize, seed: seed.wrapping_mul(53).wrapping_add(k) });
     }
     for k in 0..tier.pick(8u64, 64) {
         cases.push(Case::Linear { seed: seed.wrapping_mul(7777).wrapping_add(k * 131) });
